@@ -446,6 +446,17 @@ def _s4(ctx, zero_guard):
                   and not _inside(c, loop) and c.lineno > loop.lineno and len(c.args) == 3 and isinstance(c.args[2], ast.Name)]
         if len(tails_) == 1:
             rem = tails_[0].args[2].id
+    # third form: one loop `while remaining > 0` whose pieces are min(remaining, sector_length) long - whole sectors while more than one
+    # sector remains, then the rest - and no separate tail read
+    unified = False
+    if not for_form and rem is not None and not any(isinstance(c, ast.Call) and isinstance(c.func, ast.Attribute) and c.func.attr == "_read_sector"
+                                                    and not _inside(c, loop) and c.lineno > loop.lineno for c in own_nodes(fn)):
+        cs_ = cmp_struct(evaluator(ctx, fn, {}), loop.test)
+        unified = cs_ is not None and ((cs_[0] == A(rem) and cs_[1] == ">") or (cs_[0] == A(rem) - C(1) and cs_[1] == ">="))
+
+    def _piece(cur):
+        return A("min(" + ",".join(sorted([cur.key(), SL.key()])) + ")")
+
     n_calls_total = 0
     for p in prs:
         calls = list(calls_on(p, attr="_read_sector"))
@@ -508,7 +519,11 @@ def _s4(ctx, zero_guard):
             aa = [e2.ev(x) for x in c.args]
             if aa[1] != C(0):
                 okb, detb = False, f"_read_sector({', '.join(x.key() for x in aa)}) at line {c.lineno}: later piece does not start at offset 0"
-            if _inside(c, loop) and aa[2] != SL:
+            if _inside(c, loop) and unified:
+                cur_ = e2.ev(ast.Name(id=rem, ctx=ast.Load()))
+                if aa[2] != _piece(cur_):
+                    okb, detb = False, f"piece length {aa[2].key()} is not min(remaining, sector_length)"
+            elif _inside(c, loop) and aa[2] != SL:
                 okb, detb = False, f"middle piece length {aa[2].key()} is not sector_length"
         ctx.ob("S4", c0, "(b) later pieces start at offset 0; middle pieces are whole sectors", okb, detb, inst=f"offsets:{_pc(p)}")
         if p.end == "return":
@@ -528,7 +543,7 @@ def _s4(ctx, zero_guard):
     loop_calls = [c for c in ast.walk(loop) if isinstance(c, ast.Call) and isinstance(c.func, ast.Attribute) and c.func.attr == "_read_sector"]
     tail_calls = [c for c in own_nodes(fn) if isinstance(c, ast.Call) and isinstance(c.func, ast.Attribute) and c.func.attr == "_read_sector"
                   and not _inside(c, loop) and c.lineno > loop.lineno]
-    okl, det = len(loop_calls) == 1 and len(tail_calls) == 1, ""
+    okl, det = len(loop_calls) == 1 and (len(tail_calls) == 1 or (unified and not tail_calls)), ""
     oka2, deta2 = True, ""
     if not okl:
         det = f"{len(loop_calls)} reads inside the middle-sector loop, {len(tail_calls)} tail reads"
@@ -585,11 +600,11 @@ def _s4(ctx, zero_guard):
             if rem is not None:
                 rb = evaluator(ctx, fn, env_in).ev(ast.Name(id=rem, ctx=ast.Load()))
                 ra = evaluator(ctx, fn, pr1.env).ev(ast.Name(id=rem, ctx=ast.Load()))
-                if rb - ra != SL:
-                    oka2, deta2 = False, f"an iteration reads a whole sector but changes `{rem}` by {(ra - rb).key()}"
+                if rb - ra != (_piece(rb) if unified else SL):
+                    oka2, deta2 = False, f"an iteration reads {'min(remaining, sector_length) bytes' if unified else 'a whole sector'} but changes `{rem}` by {(ra - rb).key()}"
         for p in prs:
             for c, env, st in calls_on(p, attr="_read_sector"):
-                if c is tail_calls[0]:
+                if tail_calls and c is tail_calls[0]:
                     e2 = evaluator(ctx, fn, env)
                     if not for_form:
                         if e2.ev(c.args[0]) != e2.ev(idx_expr):
